@@ -472,3 +472,47 @@ func boolResults(c *ssa.Call) []ssa.Value {
 	}
 	return out
 }
+
+// retVal resolves result #i of a Return. With a defer in the function go/ssa
+// spills results into local cells ("*t1 = v; rundefers; return *t0, *t1"): the
+// value is then the last store to the cell in the same block.
+func retVal(r *ssa.Return, i int) ssa.Value {
+	if i < 0 || i >= len(r.Results) {
+		return nil
+	}
+	v := r.Results[i]
+	u, ok := v.(*ssa.UnOp)
+	if !ok || u.Op != token.MUL {
+		return v
+	}
+	cell, ok := u.X.(*ssa.Alloc)
+	if !ok {
+		return v
+	}
+	b := r.Block()
+	var last ssa.Value
+	for _, ins := range b.Instrs {
+		if ins == ssa.Instruction(u) {
+			break
+		}
+		if st, ok := ins.(*ssa.Store); ok && st.Addr == cell {
+			last = st.Val
+		}
+	}
+	if last != nil {
+		return last
+	}
+	return v
+}
+
+func numResults(r *ssa.Return) int { return len(r.Results) }
+
+// retIsNilErr: the Return's last (error) result is the nil constant.
+func retIsNilErr(r *ssa.Return) bool {
+	n := len(r.Results)
+	if n == 0 {
+		return false
+	}
+	v := retVal(r, n-1)
+	return v != nil && isErrorType(r.Results[n-1].Type()) && isNilConst(v)
+}
